@@ -443,6 +443,21 @@ impl Prop for C14 {
                 out.probe("extra_request_settings_with_fields_left_out");
             }
         }
+        // ... and for the Minecraft definitions that start with the Java query: a host name and / or a protocol
+        // version, each given or left out (left out: "gamedig" / -1, the documented defaults)
+        if with_ts && extra.is_none() && t.draw(CFG, 2) == 0 {
+            if let Some(Entry::McJava { .. } | Entry::McAuto { .. }) = &protocol_entry {
+                let hostname = if t.draw(CFG, 2) == 0 { None } else { Some((*t.pick(CFG, &["play.example.org", "x", "mc.é.example", ""])).to_string()) };
+                let protocol_version = if t.draw(CFG, 2) == 0 { None } else { Some(*t.pick(CFG, &[-1i32, 0, 47, 760, i32::MAX, i32::MIN])) };
+                extra = Some(gamedig::protocols::types::ExtraRequestSettings { hostname: hostname.clone(), protocol_version, gather_players: None, gather_rules: None, check_app_id: None });
+                let settings = Some(gamedig::games::minecraft::RequestSettings { hostname: hostname.unwrap_or_else(|| "gamedig".to_string()), protocol_version: protocol_version.unwrap_or(-1) });
+                protocol_entry = Some(match &protocol_entry {
+                    Some(Entry::McJava { .. }) => Entry::McJava { settings },
+                    _ => Entry::McAuto { settings },
+                });
+                out.probe("extra_request_settings_with_fields_left_out");
+            }
+        }
         let eco = matches!(game.protocol, Protocol::PROPRIETARY(ProprietaryProtocol::Eco));
         let run_path = |entry: Entry| -> RunOut {
             let call = Call { entry, ip: SERVER_IP, port, default_port: golden, timeout: ts };
